@@ -15,3 +15,17 @@ Definition check (c : case) : bool :=
   conforms c && (let fs := frames c in inv_everywhere fs && steps_ok [] fs).
 
 Definition run (cs : list case) : list nat := mismatches check cs.
+
+(* self-test of the checker, re-evaluated on every run: the two example cases
+   of the format are accepted; a trace produced by the LEGACY variant of the
+   model (reorg with batch 3: no QPrev, rows >= the deleted position only) is
+   rejected by trace conformance *)
+From Shovel Require Import Model.TaskWitness Corr.TaskGen.
+Example examples_accepted : check example_case = true /\ check example_case2 = true.
+Proof. vm_compute. split; reflexivity. Qed.
+Example legacy_trace_rejected :
+  conforms (gen_case legacy w2_cfg (Db [] []) [chainA; chainB]
+                     [(chainA, []); (chainA, []); (chainB, []); (chainB, [])]) = false
+  /\ check (gen_case repaired w2_cfg (Db [] []) [chainA; chainB]
+                     [(chainA, []); (chainA, []); (chainB, []); (chainB, [])]) = true.
+Proof. vm_compute. split; reflexivity. Qed.
